@@ -180,6 +180,32 @@ def run():
         else:
             chk.cov["traces_validated_against_impl"] += len(index)
             chk.cov["collections_validated"] = ngc
+        # ---- a program with a tiny live set (harness/c/rampc.c, through the C API) must be served entirely from recycled storage: its heap may not
+        #      exceed 3 x the initial segment (the unchanged tree never adds a segment; the bound is deliberately generous)
+        rexe = vlib.compile_c(build, os.path.join(vlib.VERIF, "harness", "c", "rampc.c"), sc.file("rampc"))
+
+        def ramp_one(job):
+            label, n, step = job
+            t = sc.file("macro_%s.ndjson" % label)
+            try:
+                p = subprocess.run([rexe, str(n), str(step)], env=build.env({"CHIBI_VERIF_TRACE": t, "CHIBI_VERIF_WALK": "1"}), cwd=vlib.REPO,
+                                   stdout=subprocess.PIPE, stderr=subprocess.PIPE, timeout=900)
+                return label, t, p.returncode, p.stdout.decode(errors="replace")[-100:]
+            except subprocess.TimeoutExpired:
+                return label, t, -9, "timeout"
+        rjobs = [("rampc_%d" % st, 120000 if chk.thorough else 40000, st) for st in ([4, 1, 7, 12, 33] if chk.thorough else [4, 7 + chk.seed % 5])]
+        rres = vlib.parallel(ramp_one, rjobs, jobs=4)
+        r2, allp2, index2 = validate_macro(chk, sc, rres, bound=(3, 1))
+        if r2.error and "Postcondition" not in r2.error and "Invariant" not in (r2.error or ""):
+            raise Broken("HeapSummary failed on the ramp workload: %s" % r2.error[:1000])
+        if any(rc != 0 for _, _, rc in index2):
+            chk.report("macro:ramp:crash", "ramp workload ended with a non-zero status: %s" % index2, "ramp_crash.json", {"runs": index2})
+        elif r2.ok:
+            chk.cov["traces_validated_against_impl"] += len(index2)
+            chk.cov["ramp_collections_validated"] = sum(n for _, n, _ in index2)
+        else:
+            chk.report("macro:ramp:%s" % (r2.violated or "rejected"), "a program with a tiny live set made the heap grow beyond 3 x its initial size (or its heap trace was rejected): %s" % (r2.violated or "rejected"),
+                       "ramp_rejected.json", {"tlc": r2.summary(), "runs": index2})
         chk.cov["evaluations"] = chk.cov["traces_validated_against_impl"]
         chk.cov["distinct_nontrivial"] = sum(chk.cov["micro_behaviours"].values())
         chk.cov["rule"] = ("behaviours = distinct action sequences (alloc/set/root/collect/grow) produced by TLC -simulate from Heap.tla, "
